@@ -688,6 +688,51 @@ func runFree(rc *Recorder, w *World, rounds, k int) error {
 	return nil
 }
 
+// runDrainWriter: a chunked catch-up (MaxSyncWALBytes = one frame) during which the application keeps
+// committing: one transaction lands while each Sync call is draining (at the hand-off of the executor
+// after its first chunk). Every Sync call must still end with the checkpoint policy evaluated: the WAL
+// stays within the bound after every call (seed C13d: the loop of DB.Sync left at the WAL size measured on
+// entry). Only the bound (policy_bounded_ok, the statement of C13) is applied: the per-call model of
+// policy_sync has no commit in the middle of a call.
+func runDrainWriter(rc *Recorder, w *World, rounds int) error {
+	defer func() { litestream.VerifTracePoint = nil }()
+	for i := 0; i < rounds; i++ {
+		for j, n := 0, 3+w.rng.Intn(3); j < n; j++ {
+			if err := w.writeTx(1 + w.rng.Intn(2)); err != nil {
+				return err
+			}
+		}
+		fired := false
+		var werr error
+		litestream.VerifTracePoint = func(_ any, ev string) {
+			if ev != "exec.rel" || fired {
+				return
+			}
+			fired = true
+			werr = w.writeTx(1)
+		}
+		err := w.ldb.Sync(context.Background())
+		litestream.VerifTracePoint = nil
+		rc.syncs++
+		w.trace = append(w.trace, fmt.Sprintf("S+commit@exec.rel(%v)", fired))
+		if werr != nil {
+			return werr
+		}
+		if err != nil {
+			rc.violate("C13/sync-error-without-contention", fmt.Sprintf("Sync failed with nothing pinned or locked: %v", err), w)
+			return nil
+		}
+		wal1 := readWAL(w.dbPath+"-wal", w.cfg.PageSize)
+		if wal1.live > rc.maxLive {
+			rc.maxLive = wal1.live
+		}
+		rc.add("policy_bounded_ok", L(I(int64(w.cfg.Min)), I(int64(w.cfg.Trunc)), I(1), I(wal1.live), I(w.tag)), I(1),
+			"bounded-drain-with-writer:"+boundClass(w.cfg, wal1.live), wal1.live > 1)
+		rc.classes["sync:commit-during-chunked-drain"]++
+	}
+	return nil
+}
+
 // runPinned: a long application reader is open while the application writes and
 // litestream syncs; then the application stops (reader still open) and k idle
 // syncs follow; then the reader ends and k more idle syncs follow (the free-idle
@@ -1031,6 +1076,13 @@ func runHistory(rc *Recorder, base string, seed int64, idx int, quick bool) {
 		kind = []string{"d-free", "d-free", "d-pinned", "d-chklock", "d-wlock"}[d-3]
 	case d < 11:
 		kind = "spill"
+	case d < 13:
+		// chunked drains under a writer: small thresholds, one frame per chunk
+		kind = "drain-writer"
+		cfg.MaxB = cfg.fs()
+		cfg.Min = []int{5, 10}[rng.Intn(2)]
+		cfg.Trunc = 0
+		cfg.CI = 0
 	}
 	w, err := newWorld(dir, cfg, rng, int64(idx))
 	if err != nil {
@@ -1054,6 +1106,8 @@ func runHistory(rc *Recorder, base string, seed int64, idx int, quick bool) {
 		err = runFree(rc, w, rounds, k)
 	case "pinned":
 		err = runPinned(rc, w, 1+rng.Intn(3), 4+rng.Intn(6))
+	case "drain-writer":
+		err = runDrainWriter(rc, w, 6+rng.Intn(5))
 	case "spill":
 		if k < 3 {
 			k = 3
